@@ -79,6 +79,12 @@ def _case(rng, big=False, force=None):
             gc = rng.choice([rng.uniform(.25, .75), 0.3, 0.7, rng.uniform(.31, .69)]) if withgc else None
             rm = (0.0 if rmzero and rng.random() < 0.6 else rng.uniform(0, 1)) if withrm else None
             ref.append([c, pos, pos + sz, antiname if anti else "G%d" % (i // 4), lg, dp, gc, rm, sp])
+            if overlap and not anti and kind != "flat" and rng.random() < 0.3:
+                # a second bin with the SAME start and another end (tiled / nested baits): the end is part of the sort key and
+                # of the bin's identity; listed before or after its twin (round-4 seed C04-r4: sort key without the end)
+                twin = [c, pos, pos + sz + rng.choice([-1, 1]) * rng.randint(1, sz - 1), "G%d" % (i // 4), lg + rng.choice([-0.7, 0.4, 0.9]),
+                        dp, gc, rm, sp]
+                ref.insert(len(ref) - 1 if rng.random() < 0.5 else len(ref), twin)
             gap = rng.choice([0, 0, rng.randint(1, 200), rng.randint(200, 3000)])
             if overlap and not anti and rng.random() < 0.4:
                 gap = -rng.randint(1, sz - 1)
